@@ -294,9 +294,22 @@ def make_engine(fl, rng, tb, d, mode, flags, force):
                     hs = [rng.choice(HEDGES) for _ in range(rng.choice([0, 0, 0, 1]))]
                     cons.append(" ".join([v.name, "is"] + hs + [rng.choice(v.terms).name]))
                 text = f"if {ante} then {' and '.join(cons)}"
-                w = g.height("weight") if rng.random() < 0.5 else 1.0
-                rule = fl.Rule.create(text, e)
-                rule.weight = w
+                # weights: 1 (default), exactly 0.0 / -0.0 (falsy numbers), values on the decimals grid or free, and the near-1
+                # tolerance cases of Gen.height; either written in the rule text or assigned to the rule object afterwards
+                k = rng.random()
+                if k < 0.45:
+                    w = 1.0
+                elif k < 0.57:
+                    w = 0.0
+                elif k < 0.6:
+                    w = -0.0
+                else:
+                    w = g.height("weight")
+                if rng.random() < 0.5 and float(f"{w:.{d}f}") == w and (w != 0.0 or math.copysign(1.0, w) == math.copysign(1.0, float(f"{w:.{d}f}"))):
+                    rule = fl.Rule.create(f"{text} with {w:.{d}f}", e)        # the text carries the weight exactly
+                else:
+                    rule = fl.Rule.create(text, e)
+                    rule.weight = w
                 rb.rules.append(rule)
         e.rule_blocks.append(rb)
     # probes of attributes that the language cannot express
